@@ -12,13 +12,13 @@ Definition run_closed (args : list Z) : list Z :=
   | _ => bad_case
   end.
 
-(* 2002: oracle (SimpleFold rows for the orbit of ch), IsLower(ch), IsUpper(ch), notone, option word, ch
+(* 2002: oracle (SimpleFold rows for the orbit of ch), notone, option word, ch
    -> the leaf of the optimised tree for the one-letter unit: e_res (0|1 = One|Notone, o, ch) / (2, o, class) *)
 Definition run_unit (args : list Z) : list Z :=
-  match (dlet o <- d_oracle ; dlet lo <- d_bool ; dlet up <- d_bool ; dlet notone <- d_bool ;
-         dlet opts <- d_z ; dlet ch <- d_z ; d_ret (o, lo, up, notone, opts, ch)) args with
-  | Some ((o, lo, up, notone, opts, ch), []) =>
-      e_res e_uleaf (unit_leaf (or_cat o) (or_fold o) (fun _ => lo) (fun _ => up) orbit_fuel notone opts ch)
+  match (dlet o <- d_oracle ; dlet notone <- d_bool ;
+         dlet opts <- d_z ; dlet ch <- d_z ; d_ret (o, notone, opts, ch)) args with
+  | Some ((o, notone, opts, ch), []) =>
+      e_res e_uleaf (unit_leaf (or_cat o) (or_fold o) orbit_fuel notone opts ch)
   | _ => bad_case
   end.
 
